@@ -239,64 +239,6 @@ fn c15_alist_name() {
     core::mem::forget(v);
 }
 
-/// Association-list lookup by value key: the cdr of the first entry whose car equals the key value (same kind AND
-/// payload); None / nil otherwise.
-/// @bound alists of 0..=2 entries, keys string / symbol / keyword / number (2 payloads each) or non-pair entries, symbolic key value
-/// @unwindset <lexpr::Value as std::cmp::PartialEq>::eq:1; <lexpr::Value as std::cmp::PartialEq>::ne:1
-/// @encodes value::index::<impl Index for Value>::index_into, match_pair_key
-/// @timeout 900
-#[kani::proof]
-#[kani::unwind(6)]
-fn c15_alist_value() {
-    let n: usize = kani::any();
-    kani::assume(n <= 2);
-    let kinds: [u8; 3] = kani::any();
-    let keys: [u8; 3] = kani::any();
-    let vals: [i64; 3] = kani::any();
-    let mut i = 0;
-    while i < 3 {
-        kani::assume(kinds[i] <= 4 && keys[i] >= b'a' && keys[i] <= b'b');
-        i += 1;
-    }
-    let mut v = Value::Null;
-    let mut i = n;
-    while i > 0 {
-        i -= 1;
-        let entry = if kinds[i] == 4 {
-            Value::from(vals[i])
-        } else {
-            Value::Cons(Cons::new(key_value(kinds[i], keys[i]), Value::from(vals[i])))
-        };
-        v = Value::Cons(Cons::new(entry, v));
-    }
-    let qk: u8 = kani::any();
-    let qb: u8 = kani::any();
-    kani::assume(qk <= 3 && qb >= b'a' && qb <= b'b');
-    let key = key_value(qk, qb);
-    let mut exp: Option<i64> = None;
-    let mut i = 0;
-    while i < n {
-        if exp.is_none() && kinds[i] == qk && keys[i] == qb {
-            exp = Some(vals[i]);
-        }
-        i += 1;
-    }
-    let got = v.get(&key);
-    match exp {
-        Some(e) => assert!(got.is_some() && got.unwrap().as_i64() == Some(e)),
-        None => assert!(got.is_none()),
-    }
-    let ix = &v[&key];
-    match exp {
-        Some(e) => assert!(ix.as_i64() == Some(e)),
-        None => assert!(ix.is_nil()),
-    }
-    kani::cover!(n == 2 && exp.is_some());
-    kani::cover!(n == 2 && exp.is_none() && keys[0] == qb);
-    core::mem::forget(v);
-    core::mem::forget(key);
-}
-
 /// Indexing never panics and yields None / nil on every non-list kind, for every usize, name and value key.
 /// @bound all 11 kinds as targets (atoms with symbolic payload), index over full usize, 1-byte names
 /// @encodes value::index (all impls), <Value as ops::Index>::index
